@@ -325,11 +325,12 @@ Definition c01_kf1_class_dir (sd : side) (l : list kev) : bool :=
 Definition c01_kf1_class (l : list kev) : bool :=
   c01_kf1_class_dir SA l || c01_kf1_class_dir SB l.
 
-(* ---- classifier of the finding D17: after its message channel was closed (the socket
-   dispatcher is gone) an endpoint retransmits a data segment: process_all_incoming_messages
-   returned early, after remove_up_to_ack but before truncate_front, so the retransmission is cut
-   from the wrong place of the ring.  Class, for the data sent by `sd`: KeClose sd, later an
-   emitted data seq that had been emitted before. *)
+(* ---- classifier of the former finding D17 (repaired; kept for the regression theorem): after
+   its message channel was closed (the socket dispatcher is gone) an endpoint retransmits a data
+   segment.  Before the repair process_all_incoming_messages returned early there, after
+   remove_up_to_ack but before truncate_front, and the retransmission was cut from the wrong place of
+   the ring; c01_pair_guarded used to excuse this class and no longer does.  Class, for the data sent
+   by `sd`: KeClose sd, later an emitted data seq that had been emitted before. *)
 Fixpoint d17_scan (sd : side) (closed : bool) (seen : list Z) (l : list kev) : bool :=
   match l with
   | [] => false
@@ -347,8 +348,8 @@ Definition c01_d17_class (l : list kev) : bool := c01_d17_class_dir SA l || c01_
 (* the guarded statement (what the theorems give): for each direction, either the trace is in a
    known class for the data of that direction's writer, or the reader saw a prefix throughout *)
 Definition c01_pair_guarded (evs : list kev) (l : list pstep_obs) : bool :=
-  (c01_kf1_class_dir SB evs || c01_d17_class_dir SB evs || c01_dir_ok SA l) &&
-  (c01_kf1_class_dir SA evs || c01_d17_class_dir SA evs || c01_dir_ok SB l).
+  (c01_kf1_class_dir SB evs || c01_dir_ok SA l) &&
+  (c01_kf1_class_dir SA evs || c01_dir_ok SB l).
 
 (* the events of a model trace *)
 Section Events.
